@@ -88,6 +88,25 @@ def main() -> int:
             # a nan produced by the broken code): the verdict stands
             ctx.notes.append("the harness raised after reporting violations: " + traceback.format_exc()[-300:])
             return ctx.finish(audit, getattr(mod, "TRUSTED", []), getattr(mod, "ASSUMPTIONS", []))
+        # an exception the harness did not anticipate, raised INSIDE the implementation under test (innermost
+        # frame in $LW_REPO/lightworks): the implementation refused or crashed on a generated case that the model
+        # and the unchanged code handle.  That breaks the correspondence; no minimal input was isolated.
+        import sys as _sys
+
+        tb = _sys.exc_info()[2]
+        inner = None
+        while tb is not None:
+            inner = tb.tb_frame.f_code.co_filename
+            tb = tb.tb_next
+        impl_root = os.path.realpath(os.path.join(repo, "lightworks")) + os.sep
+        if inner and os.path.realpath(inner).startswith(impl_root) and "audit" in locals() and "mod" in locals():
+            what = ("the implementation raised an exception the check does not expect on a generated case: "
+                    + traceback.format_exc().strip().splitlines()[-1][:200])
+            ctx.violation(what, {"correspondence": "model/implementation correspondence of " + prop,
+                                 "traceback_tail": traceback.format_exc()[-1500:],
+                                 "theorems_no_longer_tied_to_code": audit.get("theorems", [])},
+                          sig={"kind": "unexpected-implementation-exception"}, found_input=False)
+            return ctx.finish(audit, getattr(mod, "TRUSTED", []), getattr(mod, "ASSUMPTIONS", []))
         print(f"MACHINERY-FAULT property={prop}: unexpected exception in the harness", flush=True)
         return 2
 
